@@ -94,8 +94,16 @@ def ref_sq(s, i):
 
 
 # which scanner classes implement which reference class
+def _base(cls):
+    import re
+    return re.sub(r'\+line[0-9*]*', '', cls)
+
+
 def implements(ref, classes):
     cs = set(classes)
+    if ref.startswith('env'):
+        # newline counting inside ${...} is C06's business (R6.4)
+        return set(_base(x) for x in cs) == {ref}
     if ref == 'close':
         return cs == {'return(3,begin0,terminate,buffer)'}
     if ref == 'octal':
@@ -264,7 +272,7 @@ def run(c, chk):
                     nshape += 1
                     r, ln = dfa.match(scname, s + suffix)
                     k = K.get(r, ['?'])
-                    if not (ln == len(s) and k == [want]):
+                    if not (ln == len(s) and set(_base(x) for x in k) == {want}):
                         bad.setdefault(scname, (s + suffix, r, ln, k))
             # never in single quotes
             nshape += 1
